@@ -5,8 +5,16 @@
 package cabfile
 
 //@ func Digest
-//@   property C11
+//@   property C11 C08 C05
 //@   nopanic
+//@   ghost copies int = 0
+//@   before call io.CopyN(w, src, n): assert @file_data_hashed_up_to_the_end_of_the_cabinet_old_signature_left_out src == r && \
+//@        (copies == 0 ==> w == dw && n == (cab.Header.TotalSize - cab.Header.OffsetFiles + 4294967296) % 4294967296) && (copies == 1 ==> istype(w, *bytes.Buffer) && cab.SignatureHeader != nil) && copies <= 1
+//@   on call io.CopyN(_, _, _) ret (n, e): copies = copies + 1
+//@   before call encoding/binary.Write(w, _, v): assert @header_digest_covers_the_fields_of_the_signed_layout istype(v, sigBlob) ==> w == dw && \
+//@        unbox(v, sigBlob).TotalSize == outHeader.TotalSize && unbox(v, sigBlob).OffsetFiles == outHeader.OffsetFiles && unbox(v, sigBlob).Flags == outHeader.Flags && \
+//@        unbox(v, sigBlob).NumFolders == outHeader.NumFolders && unbox(v, sigBlob).NumFiles == outHeader.NumFiles && unbox(v, sigBlob).SetID == outHeader.SetID && \
+//@        unbox(v, sigBlob).Magic == outHeader.Magic && unbox(v, sigBlob).Version == outHeader.Version
 //@   requires r != nil && (hashFunc == 0 || (1 <= hashFunc && hashFunc <= 19))
 //@   allocbound 0 65535
 //@   allocbound 1 65536
@@ -18,3 +26,24 @@ package cabfile
 //@   nopanic
 //@   requires offset != nil
 //@   modifies *offset
+
+//@ func (*CabinetDigest).MakePatch
+//@   property C03 C08 C11
+//@   nopanic
+//@   requires d.Cabinet != nil && len(d.Patched) >= 52 && len(d.Patched) <= 4294967295 && len(pkcs) <= 1073741824
+//@   ghost adds int = 0
+//@   before call (encoding/binary.littleEndian).PutUint32(_, b, v): assert @signature_size_field_gets_the_padded_length v == (len(pkcs) + 7) / 8 * 8 && samearr(b, d.Patched) && len(b) == len(d.Patched) - 48
+//@   before call (*binpatch.PatchSet).Add(_, off, sz, blob): assert @header_region_replaced_by_the_patched_header adds == 0 ==> off == 0 && sz == d.Cabinet.Header.OffsetFiles && sameslice(blob, d.Patched)
+//@   before call (*binpatch.PatchSet).Add(_, off, sz, blob): assert @old_signature_behind_the_cabinet_replaced adds == 1 ==> off == d.Cabinet.Header.TotalSize && \
+//@        (d.Cabinet.SignatureHeader == nil ==> sz == 0) && (d.Cabinet.SignatureHeader != nil ==> sz == d.Cabinet.SignatureHeader.SignatureSize) && len(blob) == (len(pkcs) + 7) / 8 * 8
+//@   before call (*binpatch.PatchSet).Add(_, off, sz, blob): assert @two_regions adds <= 1
+//@   on call (*binpatch.PatchSet).Add(_, _, _, _) ret (): adds = adds + 1
+//@   ensures ret0 != nil && adds == 2
+//@   allocbound 0 len(pkcs) + 8
+//@
+//@ func (*SignatureHeader).Size
+//@   property C11 C08
+//@   nopanic
+//@   nilreceiver
+//@   ensures (sh == nil ==> ret0 == 0) && (sh != nil ==> ret0 == sh.SignatureSize)
+//@   modifies nothing
